@@ -12,12 +12,13 @@ pkg=./$(dirname "$demo")/
 echo "demo: $demo pkg: $pkg"
 # (never git stash: the stash is shared by all worktrees of /repo)
 (cd "$wt" && git checkout -q -- . && git apply "$dst/patch.diff" && echo "patch.diff applies on a clean tree")
-(cd "$wt" && go test -count=1 -run 'Seed|seed|Demo|demo' "$pkg" > /tmp/seed_with.txt 2>&1; echo "with change: rc=$?" )
-(cd "$wt" && git apply -R "$dst/patch.diff" && go test -count=1 -run 'Seed|seed|Demo|demo' "$pkg" > /tmp/seed_without.txt 2>&1; echo "without change: rc=$?"; git apply "$dst/patch.diff")
+(cd "$wt" && unshare -rn sh -c "ip link set lo up 2>/dev/null; go test -count=1 -run 'Seed|seed|Demo|demo' $pkg" > /tmp/seed_with.txt 2>&1; echo "with change: rc=$?" )
+(cd "$wt" && git apply -R "$dst/patch.diff" && unshare -rn sh -c "ip link set lo up 2>/dev/null; go test -count=1 -run 'Seed|seed|Demo|demo' $pkg" > /tmp/seed_without.txt 2>&1; echo "without change: rc=$?"; git apply "$dst/patch.diff")
 (cd "$wt" && go build ./... >/dev/null 2>&1; echo "build rc=$?")
 # the existing tests of every touched package still pass with the change (demo skipped)
 pkgs=$(grep '^+++ b/' "$dst/patch.diff" | sed 's#^+++ b/##' | xargs -n1 dirname | sort -u | sed 's#^#./#')
-(cd "$wt" && go test -count=1 -skip 'TestSeed|SeedDemo' $pkgs > /tmp/seed_pkgtests.txt 2>&1; echo "existing tests of touched packages ($pkgs): rc=$?")
+# (private network namespace: the repo's own tests bind fixed ports and other runs use them at the same time)
+(cd "$wt" && unshare -rn sh -c "ip link set lo up 2>/dev/null; go test -count=1 -skip 'TestSeed|SeedDemo' $pkgs" > /tmp/seed_pkgtests.txt 2>&1; echo "existing tests of touched packages ($pkgs): rc=$?")
 cd /verif
 for c in "$@"; do
   VERIF_REPO="$wt" ./check "$c" 2>&1 | grep -E "^(PASS|FAIL|VIOLATION|INFRA)" | cut -c1-160 | head -3
